@@ -128,6 +128,24 @@ CHECKS = {
         units=[rapid("TestC12_History", 4000, 200000, 16, 16), rapid("TestC12_Finite", 1500, 60000)],
         min_share=dict(any={"end_transient_after_events": ["histories", 0.3], "client_stopped": ["histories", 0.03], "vb_ended_twice": ["histories", 0.2]}),
     ),
+    "C14": dict(
+        level="exploration",
+        rule="rapid: (a) 1..4 distinct group names (arbitrary unicode, colons, the literal ':checkpoint:', digits, empty, prefix look-alikes) x 1..4 "
+             "vBucket ids in 0..65535 saved through the real cbMetadata on the simulated node: every KV write key is under '_connector:cbgo:', "
+             "decodes right-to-left to exactly its (group, vb), no key shared by two pairs, recognised by helpers.IsMetadata in all three "
+             "event structs, and loads back per group; dotted group names at any position are rejected fail-stop (child process, Load and Save); "
+             "membership register / index / heartbeat writes of a real NewCBMembership are all under '<prefix><group>:instance:'. (b) history "
+             "engine with many internal-key / txn events: never delivered, position advances, no per-vBucket write unless an ack / non-document "
+             "event flagged it. (c) closed loop: metadata bucket == source bucket, the node streams every KV write back as a mutation of the "
+             "key's vBucket, periodic checkpointing every 3..8 ms, a burst of 1..12 user events: writes must stop (12 quiet ticks) and stay "
+             "<= 3 KV ops per user event. non-trivial = (a) >=2 groups incl. one with ':' or digits, (b) internal-key event and a successful "
+             "save, (c) a checkpoint write fed back on an assigned vBucket",
+        assumptions=["group names are valid UTF-8 of <= 60 bytes (Couchbase keys are limited to 250 bytes)",
+                     "simnode maps a key to its vBucket exactly as gocbcore routed the request (the request's vbucket field)"] + HIST_ASSUME[:3],
+        units=[rapid("TestC14_Keys", 1200, 100000), rapid("TestC14_DottedGroup", 32, 1500, 8, 16), rapid("TestC14_MembershipKeys", 64, 3000, 8, 16),
+               rapid("TestC14_FilterHistory", 4000, 200000), rapid("TestC14_ClosedLoop", 64, 3000, 8, 16)],
+        min_share=dict(any={"feedback_on_assigned_vb": ["closed_loop_cases", 0.5]}),
+    ),
     "C16": dict(
         level="exploration",
         rule="rapid histories (deliveries of all kinds, in/out-of-order acks, saves, rebalances to generated group shapes announced through the "
